@@ -639,3 +639,99 @@ pub fn awkward_long_name(r: &mut Rng) -> (Vec<u8>, bool) {
     }
     (v, utf8)
 }
+
+
+/// Extra-field records as real archivers write them, with the internal structure a parser that interprets them
+/// would check (version bytes, the CRC-32 of the header's own name / comment, element counts, tags and sizes):
+/// Info-ZIP Unicode Path / Comment, extended timestamp, old and new Unix records, ASi Unix, NTFS times, Android
+/// alignment, the jar marker. `lie` additionally makes ONE record claim a length other than its body's (0..5,
+/// one less, one more, far too much) while the bytes of the full body stay in place behind the header.
+pub fn real_world_records(r: &mut Rng, name_raw: &[u8], comment_raw: &[u8], lie: bool) -> Vec<u8> {
+    use crate::content::crc32;
+    let mut recs: Vec<(u16, Vec<u8>)> = vec![];
+    let utf8 = |raw: &[u8]| -> Vec<u8> { cp437(raw).into_bytes() };
+    for _ in 0..r.range(1, 3) {
+        let (id, body): (u16, Vec<u8>) = match r.below(10) {
+            0 | 1 => {
+                let mut b = vec![1u8];
+                b.extend_from_slice(&crc32(name_raw).to_le_bytes());
+                b.extend_from_slice(&utf8(name_raw));
+                (0x7075, b)
+            }
+            2 => {
+                let mut b = vec![1u8];
+                b.extend_from_slice(&crc32(comment_raw).to_le_bytes());
+                b.extend_from_slice(&utf8(comment_raw));
+                (0x6375, b)
+            }
+            3 => {
+                let flags = r.pickc(&[1u8, 3, 7]);
+                let mut b = vec![flags];
+                for _ in 0..flags.count_ones() {
+                    b.extend_from_slice(&(r.below(1 << 31) as u32).to_le_bytes());
+                }
+                (0x5455, b)
+            }
+            4 => {
+                let mut b = vec![1u8, 4];
+                b.extend_from_slice(&(r.below(70000) as u32).to_le_bytes());
+                b.push(4);
+                b.extend_from_slice(&(r.below(70000) as u32).to_le_bytes());
+                (0x7875, b)
+            }
+            5 => {
+                let mut b = vec![0u8; 4];
+                b.extend_from_slice(&1u16.to_le_bytes());
+                b.extend_from_slice(&24u16.to_le_bytes());
+                for _ in 0..3 {
+                    b.extend_from_slice(&r.next_u64().to_le_bytes());
+                }
+                (0x000a, b)
+            }
+            6 => {
+                // ASi Unix: CRC-32 of the rest, mode, size/dev, uid, gid
+                let mut rest = vec![];
+                rest.extend_from_slice(&(0o100644u16).to_le_bytes());
+                rest.extend_from_slice(&0u32.to_le_bytes());
+                rest.extend_from_slice(&(r.below(1000) as u16).to_le_bytes());
+                rest.extend_from_slice(&(r.below(1000) as u16).to_le_bytes());
+                let mut b = crc32(&rest).to_le_bytes().to_vec();
+                b.extend_from_slice(&rest);
+                (0x756e, b)
+            }
+            7 => {
+                let mut b = vec![];
+                for _ in 0..2 {
+                    b.extend_from_slice(&(r.below(1 << 31) as u32).to_le_bytes());
+                }
+                b.extend_from_slice(&(r.below(1000) as u16).to_le_bytes());
+                b.extend_from_slice(&(r.below(1000) as u16).to_le_bytes());
+                (0x5855, b)
+            }
+            8 => {
+                let mut b = (r.pickc(&[4u16, 4096, 16384])).to_le_bytes().to_vec();
+                b.extend_from_slice(&vec![0u8; r.below(20) as usize]);
+                (0xd935, b)
+            }
+            _ => (0xcafe, vec![]),
+        };
+        recs.push((id, body));
+    }
+    let liar = if lie { Some(r.usize_below(recs.len())) } else { None };
+    let mut out = vec![];
+    for (i, (id, body)) in recs.iter().enumerate() {
+        let mut claimed = body.len() as u16;
+        if liar == Some(i) {
+            claimed = match r.below(5) {
+                0 | 1 => r.below(6) as u16,
+                2 => claimed.saturating_sub(1),
+                3 => claimed + 1,
+                _ => r.pickc(&[0xffffu16, 0x8000, 1000]),
+            };
+        }
+        out.extend_from_slice(&id.to_le_bytes());
+        out.extend_from_slice(&claimed.to_le_bytes());
+        out.extend_from_slice(body);
+    }
+    out
+}
